@@ -64,7 +64,8 @@ var Includes = map[string][]string{
 	"C12": {"C02.new-state", "C02.rollback", "C02.self-verify"},
 	// one CAS-guarded commit per entry
 	"C16": {"C03.one-append", "C03.entry-shape", "C17.cas"},
-	"C17": {"C03.number", "C03.entry-shape", "C03.writers", "C04.stepper-checks", "C04.stepper-table"},
+	// a writer that loses the race fails inside the multi-write operation: "leaves no trace" is the compensation
+	"C17": {"C03.number", "C03.entry-shape", "C03.writers", "C04.stepper-checks", "C04.stepper-table", "C16.compensate", "C16.restore-prior", "C16.prior-read-first"},
 	// names move through the same plumbing calls
 	"C18": {"C10.nul-protocol"},
 	// a stale 'latest' state breaks the prediction only
